@@ -32,7 +32,8 @@ SEEDS = [
     "{ pet { ... on Node { id ...PN } } } fragment PN on Node { name ... on A { a } }",
     "mutation M($b: Int = 1) { inc(by: $b) ...MF } fragment MF on Mutation { set(v: \"s\") { id } }",
     "{ __schema { queryType { name } } __type(name: \"A\") { name } num }",
-    "{ lst two hello a { echo } }",
+    "{ lst two hello a { echo } span }",
+    "{ span(r: {tags: [\"t\"], to: 5, from: 1}, rs: [{to: 2, tags: [], from: 1, step: null}]) }",
     # operations, fragments, variables, aliases and types live in separate namespaces: the same name in several of them is legal
     "query Main { ...Detail } query Detail($id: Int!) { need(x: $id) } fragment Detail on Query { num }",
     "query A($A: Int) { A: a { ...A } hello(n: $A) } fragment A on A { A: id }",
